@@ -41,6 +41,31 @@ def emitted_variant(idents, ty):
     return outs
 
 
+
+def parallel_binding_rules(fb, ctx):
+    """PARALLEL: the macros bind their `name = expr` parameters with ONE tuple pattern `let (a, b) = (ea, eb);`, so that no
+    parameter expression is evaluated in the scope of another parameter (run-time binding evaluates them all in the caller's
+    scope). In the quote! expansion a `let` is therefore followed either by a parenthesised group (the tuple pattern) or by the
+    fixed `mut __biscuit_auth_*` binding, never directly by an interpolated identifier."""
+    n_tuple = 0
+    for key, h in fb.hir.items():
+        if h.get("crate") != "biscuit_quote":
+            continue
+        calls = [c for c in find_all(h["body"], lambda z: z.get("k") == "call" and z.get("f", {}).get("k") == "path" and "quote::__private::" in (z["f"]["res"].get("path") or ""))]
+        seq = []
+        for c in calls:
+            nm = c["f"]["res"]["path"].split("::")[-1]
+            lit = [hirq.literal(a) for a in c["args"] if isinstance(hirq.literal(a), str)]
+            seq.append((nm + (":" + lit[0] if lit else ""), c["ln"]))
+        for i, (x, ln) in enumerate(seq):
+            if x != "push_ident:let":
+                continue
+            nxt = seq[i + 1][0] if i + 1 < len(seq) else "<end>"
+            if nxt == "push_group":
+                n_tuple += 1
+            ctx.check(nxt == "push_group" or nxt == "push_ident:mut", "PARALLEL", f"{h['path'].split('::')[-1] if ' as ' not in h['path'] else 'Builder::to_tokens'}: `let` at +{ln - h['line']} binds a tuple pattern or a fixed variable", f"PARALLEL|{h['path']}|{sum(1 for y, _ in seq[:i] if y == 'push_ident:let')}", f"the generated `let` is followed by `{nxt}`: parameters are bound one after another, so an earlier parameter shadows the caller's variable of the same name inside a later parameter expression (`a = b, b = a` binds both to the same value)", f"{h['file']}:{ln}")
+    ctx.floor("tuple-pattern parameter bindings in biscuit-quote", n_tuple, 5)
+
 def check(fb, ctx):
     ctx.explanation = (
         "REEMIT: for every enum of biscuit_parser::builder with a ToTokens impl (Term, MapKey through MapEntry, Scope, Op, Unary, "
@@ -155,5 +180,6 @@ def check(fb, ctx):
     if ap is not None:
         ids = quote_idents(fb.hir_of(ap)["body"])
         ctx.check("set_macro_param" in ids and "__biscuit_auth_item" in ids, "EMIT", "macro parameters are bound with set_macro_param on the item", "EMIT|add_param", f"emitted identifiers: {[i for i in ids if i != '::']}", f"{ap['file']}:{ap['line']}")
+    parallel_binding_rules(fb, ctx)
     ctx.not_decided = ["equality of resulting token bytes / authorization results (runtime)"]
     ctx.trusted = ["quote! expansion (push_ident / ToTokens::to_tokens calls) as seen in the type-checked HIR", "rustc pattern resolution"]
